@@ -166,8 +166,13 @@ impl Directive {
                     }
                     if let Some(Operand::E(expr)) = args.first() {
                         if let Expr::Const(n) = expr {
+                            if *n < 0 || *n > std::u32::MAX as i64 {
+                                bail!("size of .byte out of range: {}, {}", n, point);
+                            }
                             context.push_to_last((point, Item::ReserveData(*n)));
                         }
+                    } else {
+                        bail!("wrong format for .byte, expected: {} in {}", opts, point,);
                     }
                 } else {
                     bail!("Not allowed type of arguments for .byte, {}", point);
@@ -184,12 +189,21 @@ impl Directive {
             }
             Directive::Org => {
                 if let DirectiveOps::OpList(values) = opts {
-                    if let Some(Operand::E(Expr::Const(value))) = values.first() {
+                    if let Some(Operand::E(expr)) = values.first() {
+                        let value = match expr.run(&context.common_context) {
+                            Ok(value) => value,
+                            Err(e) => bail!("{}, {}", e, point),
+                        };
+                        if value < 0 || value > std::u32::MAX as i64 {
+                            bail!("address of .org out of range: {}, {}", value, point);
+                        }
                         if !context.last_segment().unwrap().borrow().is_empty() {
                             let current_type = context.last_segment().unwrap().borrow().t;
                             context.add_segment(Segment::new(current_type));
                         }
-                        context.last_segment().unwrap().borrow_mut().address = *value as u32;
+                        context.last_segment().unwrap().borrow_mut().address = value as u32;
+                    } else {
+                        bail!("wrong format for .org, expected: {} in {}", opts, point,);
                     }
                 } else {
                     bail!("wrong format for .org, expected: {} in {}", opts, point,);
@@ -237,6 +251,8 @@ impl Directive {
                         } else {
                             bail!("unknown device {} in {}", value, point,)
                         }
+                    } else {
+                        bail!("wrong format for .device, expected: {} in {}", opts, point,);
                     }
                 } else {
                     bail!("wrong format for .device, expected: {} in {}", opts, point,);
